@@ -1,6 +1,25 @@
 import Lace.Props.C03
+import Lace.Props.C03Term
+import Lace.Props.C03TermRun
 #print axioms Lace.C03.load_spec
 #print axioms Lace.C03.run_eq_ref
 #print axioms Lace.C03.fetch_in_bounds
 #print axioms Lace.C03.run_panic_only_rti
 #print axioms Lace.C02.execute_eq_isa
+#print axioms Lace.C03.terminal_key_consumes_n_reads
+#print axioms Lace.C03.terminal_reads_eq_pipe_reads
+#print axioms Lace.C03.typed_reads_eq_pipe_reads
+#print axioms Lace.C03.counter_bounded
+#print axioms Lace.C03.ignored_event_consumes_nothing
+#print axioms Lace.C03.buffered_read_consumes_no_event
+#print axioms Lace.C03.nul_yields_zero
+#print axioms Lace.C03.enter_yields_newline
+#print axioms Lace.C03.ctrl_c_exits
+#print axioms Lace.C03.terminal_read_no_panic
+#print axioms Lace.C03.readCharLoop_eq_readKey
+#print axioms Lace.C03.delivers_eq
+#print axioms Lace.C03.isCtrlC_iff
+#print axioms Lace.C03.execute_inp_frame
+#print axioms Lace.C03.terminal_run_eq_pipe_run
+#print axioms Lace.C03.terminal_process_eq_pipe_process
+#print axioms Lace.C03.typed_process_eq_pipe_process
